@@ -8,7 +8,7 @@ _Z80_FILES = ['rustzx-z80/src/cpu.rs', 'rustzx-z80/src/registers.rs', 'rustzx-z8
               'rustzx-z80/src/opcode/internal_block.rs', 'rustzx-z80/src/opcode/internal_stack.rs']
 
 META = {'title': 'Each instruction takes the documented T-states in the documented bus cycles',
- 'lean_modules': ['ZxVerif.Props.C03'],
+ 'lean_modules': ['ZxVerif.Props.C03', 'ZxVerif.Props.C03Sys'],
  'modelled_code': _Z80_FILES,
  'assumptions': ['a bus cycle is what the Z80Bus implementation receives: wait_mreq(addr, clk) (4-T fetch, 3-T '
                  'read/write), wait_no_mreq(addr, 1) (delay T-state carrying an address; wait_loop issues them one '
@@ -32,5 +32,5 @@ META = {'title': 'Each instruction takes the documented T-states in the document
                'timing variants forced, plus sequences and interrupt entries.',
  'level_note': COMMON_NOTE + ' Partial: the documented cycle table is my transcription (reviewable, 150 lines); the '
                'code = reference equality of the call sequences is established by exhaustive-over-encodings '
-               'differential testing, not by proof.',
+               'differential testing, not by proof. Props/C03Sys re-proves the shapes on the composed machine (the Lean Z80 reference on the Lean Spectrum bus): the timed operations each instruction appends to the machine\'s log are the documented cycles read against the memory the CPU sees, and with C04Sys the elapsed time of every instruction = documented T-states + the ULA delays over exactly those cycles.',
  'timeout_s': {'quick': 900, 'thorough': 6 * 3600}}
